@@ -123,6 +123,54 @@ func main() {
 			}(w)
 		}
 		wg.Wait()
+		// quiescent: in every serial order that ends with the wallet locked no private key is left in memory
+		// (keys issued before the last Lock were wiped by it, keys issued after it never had one)
+		lockedHoldsNothing := func(when string) {
+			h.Res.OracleEvals++
+			if !kmc.IsLocked() {
+				return
+			}
+			_, ks := kmc.VerifDump()
+			for _, k := range ks {
+				np := 0
+				for _, a := range k.Addrs {
+					if a.HasPriv {
+						np++
+					}
+				}
+				if k.Unlocked || k.AcctPriv || np > 0 {
+					msg := fmt.Sprintf("%s the wallet reports locked, yet keystore %s holds private material (unlocked=%v account key=%v, %d address private keys)", when, k.Name, k.Unlocked, k.AcctPriv, np)
+					h.FailWith("C14:locked-wallet-holds-private-key", msg, nil)
+					h.FailWith("C03:locked-holds-key-concurrent", msg, nil)
+				}
+			}
+		}
+		lockedHoldsNothing("after the concurrent storm")
+		// key issuance against one Lock(): whichever way they interleave, a locked wallet holds no private key afterwards
+		for rep := 0; rep < 12; rep++ {
+			kmc.Unlock(priv)
+			var iw sync.WaitGroup
+			delay := time.Duration(h.Rng.Intn(3000)) * time.Microsecond
+			for g := 0; g < 3; g++ {
+				iw.Add(1)
+				go func(g int) {
+					defer iw.Done()
+					for i := 0; i < 2; i++ {
+						if g == 0 {
+							kmc.NextAddresses(names[0], i == 0, 1)
+						} else if pk, ord, err := kmc.GenerateNewPublicKey(); err == nil {
+							mu.Lock()
+							issued = append(issued, issue{ord: ord, pk: fmt.Sprintf("%x", pk.SerializeCompressed())})
+							mu.Unlock()
+						}
+					}
+				}(g)
+			}
+			iw.Add(1)
+			go func() { defer iw.Done(); time.Sleep(delay); kmc.Lock() }()
+			iw.Wait()
+			lockedHoldsNothing("after key requests concurrent with one Lock()")
+		}
 		// signers against a goroutine that locks and unlocks the wallet: every signature that comes back without an
 		// error must verify under the requested key (C05), whatever the interleaving
 		if pk, _, err := kmc.GenerateNewPublicKey(); err == nil {
